@@ -86,6 +86,11 @@ func genC12(t *rapid.T) C12Case {
 			ws.Files = append(ws.Files, WSFile{Path: "gdefs.lua", Text: b.String()})
 		}
 	}
+	// a module that returns a table with members, used through a require handle with `.` and `:` calls
+	if rapid.Bool().Draw(t, "moduleMembers") {
+		ws.Files = append(ws.Files, WSFile{Path: "modm.lua", Text: "local M = {}\nM.count = 0\nfunction M:bump(n)\n  self.count = self.count + n\n  return self\nend\nfunction M.reset()\n  M.count = 0\nend\nreturn M\n"},
+			WSFile{Path: "usem.lua", Text: "local A = require(\"modm\")\nA:bump(2)\nA.reset()\nlocal function usef()\n  A:bump(3)\n  return A.count\nend\nusef()\n"})
+	}
 	if gate("c12-spaced-qualifier") {
 		// known finding C12-F2: `_G . name` written with blanks; the qualifier is rendered glued instead
 		for i := range ws.Files {
@@ -189,6 +194,17 @@ func checkC12(c C12Case, env *Env) *Violation {
 			// `_G.name`: a position on the global `name`
 			occs = append(occs, &reflua.Occ{Name: gf, Kind: reflua.ORead})
 			env.Stats.Class("pos-G-qualified")
+		}
+		if f.Path == "modm.lua" || f.Path == "usem.lua" {
+			// member names after `.` / `:` in the module scenario
+			toks := inf.res.Tokens
+			for ti := 1; ti < len(toks); ti++ {
+				if toks[ti].Kind == reflua.TName && (toks[ti-1].Text == "." || toks[ti-1].Text == ":") {
+					nm := &reflua.Name{Text: toks[ti].Text, Span: reflua.Span{Off: toks[ti].Off, End: toks[ti].End}}
+					occs = append(occs, &reflua.Occ{Name: nm, Kind: reflua.ORead})
+					env.Stats.Class("pos-member")
+				}
+			}
 		}
 		for _, o := range occs {
 			if o.Name.Off == o.Name.End || dcOcc(o) || (o.Decl != nil && o.Decl.Kind == reflua.DSelf) {
